@@ -640,3 +640,83 @@ def c03(tier):
                      "in the global declaration that lacks it; deletions that leave an equal neighbouring token are not faults"]
     c.exhaustive = True
     c.finish()
+
+
+# ---------------------------------------------------------------------------
+# C12 - C16: navigation and information features on well-typed programs
+
+def _features_check(prop, tier, rule, assumptions, layouts):
+    c = Check(prop, tier)
+    c.rule = rule
+    vlib.build_harness()
+    exe = vlib.build_server(False)
+    sets = [("MC_SplStatic_valid", 4), ("MC_SplStatic_valid3s", 1)] if tier == "quick" else [("MC_SplStatic_valid17", 3), ("MC_SplStatic_valid3", 2)]
+    for cfg, stride in sets:
+        res = vlib.tlc("MC_SplStatic", cfg + ".cfg", prop.lower() + "_" + cfg, timeout=6000, heap="16g")
+        vlib.require_coverage(res, ["PlanType", "PlanProc", "PlanDone", "Expand", "Shift", "Act"])
+        c.add_tlc(res, cfg)
+        r = _srv("features", res["out"], prop.lower() + "_" + cfg, exe,
+                 ["props=" + prop, "layouts=" + layouts, "stride=%d" % stride, "offset=%d" % (vlib.seed() % stride)], timeout=7200)
+        c.add_harness(_only_prop(r, prop), cfg)
+        os.remove(res["out"])
+    procs, num = (8, 12) if tier == "quick" else (16, 150)
+    res = vlib.tlc_sim_multi("MC_SplStatic", "Sim_SplStatic_valid.cfg", prop.lower() + "_sim", procs, num, 3000, timeout=3000)
+    c.add_tlc(res, "Sim_SplStatic_valid (140-token programs, 3-5 declarations)")
+    r = _srv("features", res["out"], prop.lower() + "_sim", exe, ["props=" + prop, "layouts=" + layouts], timeout=7200)
+    c.add_harness(_only_prop(r, prop), "simulated large programs")
+    os.remove(res["out"])
+    c.assumptions = assumptions + ["programs stay inside the uncontroversial core of SPL: no local shadows a global name, types declared before use"]
+    c.exhaustive = True
+    c.finish()
+
+
+_FEAT_COMMON = ("Well-typed programs of SplStatic (all up to the token bound with 1-3 declarations, simulated 140-token programs with 3-5 "
+                "declarations in any order); every identifier terminal carries the declaration it is bound to and its role, the case carries "
+                "the declaration table (kind, name, ref, resolved type, creating type declaration). ")
+
+
+def c12(tier):
+    _features_check("C12", tier, _FEAT_COMMON +
+                    "For every identifier at its first, middle and last column: declaration and definition must return exactly the range of the "
+                    "bound declaration's name (independent position model), implementation the same for procedures only, typeDefinition the "
+                    "named type declaration or the declaration that created the variable's array type; predefined entities, int, anonymous "
+                    "arrays and non-identifier tokens yield null, never an error or a dead server.",
+                    ["3 cursor columns per identifier; non-identifier tokens sampled every third token"], "canon,doc,nl")
+
+
+def c13(tier):
+    _features_check("C13", tier, _FEAT_COMMON +
+                    "For every identifier: references (includeDeclaration) = the other terminals with the same binding; rename returns one edit "
+                    "per terminal of the binding; applying it (own edit model) must equal the specification's re-rendering, yield the same number "
+                    "of diagnostics, bind the same occurrences together again, and renaming back restores the text; prepareRename answers the "
+                    "identifier's range exactly when rename offers edits.",
+                    ["renaming `main` is excluded from the diagnostics comparison (it legitimately makes main missing)",
+                     "references of predefined names are not compared"], "canon,nl")
+
+
+def c14(tier):
+    _features_check("C14", tier, _FEAT_COMMON +
+                    "Hover on every identifier: range = identifier extent, text contains the bound declaration's signature components (proc name "
+                    "and parameter list / [ref] name: resolved type / resolved type and name of a type) followed by its doc comment lines "
+                    "(layout `doc` puts a comment before every declaration). Signature help at every token boundary inside every call's "
+                    "argument list: callee signature, one parameter entry per declared parameter, activeParameter = number of top-level commas "
+                    "before the cursor.",
+                    ["text compared by required components with white space normalised", "parameter names of predefined procedures are not compared"],
+                    "canon,doc,nl")
+
+
+def c15(tier):
+    _features_check("C15", tier, _FEAT_COMMON +
+                    "The semantic-token delta stream (legend from the initialize answer) must decode to strictly increasing, non-overlapping "
+                    "tokens each coinciding with one lexical token (UTF-16 length; a comment may include its line feed); keywords, numbers, "
+                    "comments by lexical kind; identifiers by the kind of their binding with the declaration modifier exactly on role = decl.",
+                    ["well-formedness on broken documents belongs to the C02 sweep"], "canon,doc,nl,cmtall,cmtuni")
+
+
+def c16(tier):
+    _features_check("C16", tier, _FEAT_COMMON +
+                    "Completion at every statement start with a non-empty preceding gap (VARIABLE items = parameters+locals of the enclosing "
+                    "procedure, FUNCTION items = declared + 10 predefined procedures, never a name local to another procedure), after `:=` and "
+                    "the `(` of calls/conditions (variables), after `:` in parameter/variable declarations (STRUCT items = declared types + "
+                    "int), and in top-level gaps (only proc/type/main starters).",
+                    ["items compared per kind as label sets; snippets and keywords are ignored"], "canon,nl")
